@@ -336,6 +336,15 @@ bool muggle_bytes_buffer_writer_move_n(muggle_bytes_buffer_t *bytes_buf, void *p
 		bytes_buf->w = num_bytes;
 	} else {
 		// without jump
+		if (num_bytes > 0 && ptr != (void*)(bytes_buf->buffer + bytes_buf->w))
+		{
+			// every byte was read after ptr was handed out and refresh moved
+			// the buffer back to the origin: the region is still free, but
+			// it does not start at w any more; commit it where it is
+			bytes_buf->w = (int)((char*)ptr - bytes_buf->buffer);
+			bytes_buf->r = bytes_buf->w;
+		}
+
 		bytes_buf->w += num_bytes;
 
 		if (bytes_buf->t <= bytes_buf->w)
